@@ -43,27 +43,57 @@ func runC04(c *eng.Ctx, thorough bool) {
 	// ---- C04.5 a revoked/expired token never comes back from lookup (the C02.2 reader-side checks)
 	tokenLiveness(c, "C04.5")
 	if f := c.Fn("vault.(*TokenStore).revokeInternal"); f != nil {
-		entry := `vault\.\(\*TokenStore\)\.lookupInternal\(\)#0`
+		// Sites are located by what they are (props/c04follow.go): a call is found directly, through a
+		// bound method value, or inside a closure / helper of this package that performs it on every
+		// path; values are followed through local aliases, captured variables and helper parameters.
+		saltedIdx := nfParamIndex(f, "saltedID")
+		// the looked-up entry of the token being revoked: result 0 of lookupInternal(saltedID)
+		var entryLk []nfCall
+		for _, l := range nfCalls(f, `vault\.\(\*TokenStore\)\.lookupInternal$`) {
+			if ok, _ := nfIsParamOf(l.Args[2], nil, f, saltedIdx); ok {
+				entryLk = append(entryLk, l)
+			}
+		}
+		isEntry := func(v ssa.Value, fr *nfFrame) bool {
+			ok, _ := nfAll(v, fr, func(o eng.Origin) bool {
+				ex, isEx := o.Val.(*ssa.Extract)
+				if !isEx || ex.Index != 0 {
+					return false
+				}
+				for _, l := range entryLk {
+					if ex.Tuple == l.In.Value() {
+						return true
+					}
+				}
+				return false
+			})
+			return ok
+		}
 		// the deferred closure that deletes the primary entry
+		viewDelete := nfNamed(`^<barrier\.View>\.Delete$`)
 		var clo *ssa.Function
 		var deferIn []ssa.Instruction
 		for _, in := range eng.Instrs(f, func(in ssa.Instruction) bool { _, ok := in.(*ssa.Defer); return ok }) {
-			if mc, ok := in.(*ssa.Defer).Call.Value.(*ssa.MakeClosure); ok {
-				fn := mc.Fn.(*ssa.Function)
-				if len(eng.Calls(fn, `<barrier\.View>\.Delete$`)) > 0 {
+			if fn, _ := nfFuncValue(in.(*ssa.Defer).Call.Value); fn != nil && fn.Parent() == f {
+				if len(nfMust(fn, &nfFrame{call: in.(ssa.CallInstruction)}, viewDelete, 1)) > 0 {
 					clo = fn
 					deferIn = append(deferIn, in)
 				}
 			}
 		}
-		cubby := instrsOf(eng.Calls(f, `^dyn:ts\.cubbyholeDestroyer$`))
-		// direct, or through a bound method value (props/c04follow.go)
-		rbtCalls := nfCalls(f, `vault\.\(\*ExpirationManager\)\.RevokeByToken$`)
-		rbt := nfIns(rbtCalls)
-		var idxDel []ssa.Instruction
-		for _, d := range eng.Calls(f, `<barrier\.View>\.Delete$`) {
-			idxDel = append(idxDel, d)
+		cubbyF := c.P.Field("vault.TokenStore.cubbyholeDestroyer")
+		if cubbyF == nil {
+			c.Unresolved("vault.TokenStore.cubbyholeDestroyer")
 		}
+		cubbyS := nfPlain(nfMust(f, nil, func(nc nfCall, fr *nfFrame) bool {
+			cc := nc.In.Common()
+			return !cc.IsInvoke() && cc.StaticCallee() == nil && nfIsField(cc.Value, fr, cubbyF)
+		}, 2))
+		cubby := nfAts(cubbyS)
+		rbtS := nfPlain(nfSites(f, `vault\.\(\*ExpirationManager\)\.RevokeByToken$`))
+		rbt := nfAts(rbtS)
+		idxDelS := nfPlain(nfMust(f, nil, viewDelete, 2))
+		idxDel := nfAts(idxDelS)
 		c.Floor(f, "cubbyholeDestroyer call", len(cubby), 1)
 		c.Floor(f, "RevokeByToken call", len(rbt), 1)
 		c.Floor(f, "index deletes", len(idxDel), 2)
@@ -72,39 +102,31 @@ func runC04(c *eng.Ctx, thorough bool) {
 
 		// ---- C04.1 marker before teardown
 		c.Clause("R2", "C04.1")
-		marked := eng.Or(
-			eng.GCallOK(f, `vault\.\(\*TokenStore\)\.store$`),
-			eng.G(f, `^`+entry+`\.NumUses == -1$`, true))
-		// GCallOK inside Or loses the must-pass part; state it separately through the edges only
-		st := eng.GCallOK(f, `vault\.\(\*TokenStore\)\.store$`)
-		var stEdges []eng.Edge
-		for _, call := range eng.Calls(f, `vault\.\(\*TokenStore\)\.store$`) {
-			// only the store of the revoked entry itself (argument is the looked-up entry of saltedID)
-			if ok, _, _ := eng.OriginsMatch(call.Common().Args[2], `^call:vault\.\(\*TokenStore\)\.lookupInternal#0$`); ok {
-				if lk, isCall := call.Common().Args[2].(*ssa.Extract); isCall {
-					if lc, ok := lk.Tuple.(*ssa.Call); ok && eng.Expr(lc.Call.Args[2]) == "saltedID" {
-						stEdges = append(stEdges, eng.CallOKEdges(call)...)
-					}
+		// the store of the revoked entry itself (argument is the looked-up entry of saltedID)
+		var entryStoreS []nfSite
+		for _, st := range nfPlain(nfSites(f, `vault\.\(\*TokenStore\)\.store$`)) {
+			all := len(st.Effs) > 0
+			for _, e := range st.Effs {
+				if len(e.Call.Args) < 3 || !isEntry(e.Call.Args[2], e.Fr) {
+					all = false
 				}
 			}
+			if all {
+				entryStoreS = append(entryStoreS, st)
+			}
 		}
-		_ = st
-		marked = eng.Or(eng.Guard{Desc: "success edge of ts.store(entry) with the marker set", Edges: stEdges}, eng.G(f, `^`+entry+`\.NumUses == -1$`, true))
+		entryStore := nfAts(entryStoreS)
+		carries := c04MarkerEdges(c, f, true, func(base ssa.Value) bool { return isEntry(base, nil) })
+		carries.Desc = `[^vault\.\(\*TokenStore\)\.lookupInternal\(\)#0\.NumUses == -1$]=true`
+		marked := eng.Or(eng.Guard{Desc: "success edge of ts.store(entry) with the marker set", Edges: nfOKEdgesOf(entryStoreS)}, carries)
 		c.Cut(f, "teardown (cubbyhole, leases, index deletes, arming of the primary delete)", teardown, marked, nil)
 		// the value stored before ts.store is the marker
 		c.Clause("R3", "C04.1")
+		marker, _ := c.P.ConstValue("vault.tokenRevocationPending")
 		var markSt []ssa.Instruction
-		for _, s := range eng.Stores(f, `^`+entry+`\.NumUses$`) {
-			if eng.Expr(s.Val) == "-1" {
-				markSt = append(markSt, s)
-			}
-		}
-		var entryStore []ssa.Instruction
-		for _, call := range eng.Calls(f, `vault\.\(\*TokenStore\)\.store$`) {
-			if lk, ok := call.Common().Args[2].(*ssa.Extract); ok {
-				if lc, ok := lk.Tuple.(*ssa.Call); ok && eng.Expr(lc.Call.Args[2]) == "saltedID" {
-					entryStore = append(entryStore, call)
-				}
+		for _, st := range nfFieldStores(f, c.P.Field("logical.TokenEntry.NumUses")) {
+			if st.Fn == f && isEntry(st.Base, st.Fr) && nfIsConst(st.St.Val, st.Fr, marker) {
+				markSt = append(markSt, st.St)
 			}
 		}
 		c.Before(f, "entry.NumUses = tokenRevocationPending", markSt, "ts.store(entry)", entryStore)
@@ -113,21 +135,29 @@ func runC04(c *eng.Ctx, thorough bool) {
 		if clo == nil {
 			c.Violation(f, "deferred primary delete", f.Pos(), "no deferred closure deleting the primary token entry exists", nil)
 		} else {
-			del := instrsOf(eng.Calls(clo, `<barrier\.View>\.Delete$`))
+			cloFr := &nfFrame{call: deferIn[0].(ssa.CallInstruction)}
+			delS := nfPlain(nfMust(clo, cloFr, viewDelete, 1))
+			del := nfAts(delS)
 			c.Cut(clo, "idView.Delete(saltedID)", del, eng.G(clo, `^\^ret == nil$`, true), nil)
 			c.Clause("R5", "C04.1")
-			for _, d := range del {
-				a := d.(ssa.CallInstruction).Common().Args
-				c.Prov(clo, "key of the primary delete", d, a[len(a)-1], `^freevar:saltedID$`)
-				c.Prov(clo, "view of the primary delete", d, d.(ssa.CallInstruction).Common().Value, `^call:vault\.\(\*TokenStore\)\.idView$`)
+			for _, e := range nfEffs(delS) {
+				a := e.Call.Args
+				site := "prov{key of the primary delete}"
+				if ok, bad := nfIsParamOf(a[len(a)-1], e.Fr, f, saltedIdx); ok {
+					c.OK(e.Fn, site, e.Call.In.Pos(), "the key is revokeInternal's saltedID parameter")
+				} else {
+					c.Violation(e.Fn, site, e.Call.In.Pos(), "the primary entry is deleted under "+eng.Expr(a[len(a)-1])+" ("+bad+"), not under the salted id revokeInternal was called with", nil)
+				}
+				nfProv(c, e.Fn, "view of the primary delete", e.Call.In, e.Call.Recv, e.Fr, `^call:vault\.\(\*TokenStore\)\.idView$`)
 			}
 			// in the main body no Delete goes to the id view
-			for _, d := range idxDel {
-				recv := d.(ssa.CallInstruction).Common().Value
-				if ok, _, _ := eng.OriginsMatch(recv, `^call:vault\.\(\*TokenStore\)\.(parentView|accessorView)$`); ok {
-					c.OK(f, "index delete targets an index view", d.Pos(), eng.Expr(recv))
+			for _, e := range nfEffs(idxDelS) {
+				if ok, _ := nfAll(e.Call.Recv, e.Fr, func(o eng.Origin) bool {
+					return o.Kind == "call" && regexp.MustCompile(`vault\.\(\*TokenStore\)\.(parentView|accessorView)$`).MatchString(o.Desc)
+				}); ok {
+					c.OK(e.Fn, "index delete targets an index view", e.Call.In.Pos(), eng.Expr(e.Call.Recv))
 				} else {
-					c.Violation(f, "index delete targets an index view", d.Pos(), "a Delete in the body of revokeInternal targets "+eng.Expr(recv)+": the primary entry must only be removed by the deferred closure after every other step succeeded", nil)
+					c.Violation(e.Fn, "index delete targets an index view", e.Call.In.Pos(), "a Delete in the body of revokeInternal targets "+eng.Expr(e.Call.Recv)+": the primary entry must only be removed by the deferred closure after every other step succeeded", nil)
 				}
 			}
 			// defer armed before the first teardown step
@@ -137,16 +167,10 @@ func runC04(c *eng.Ctx, thorough bool) {
 
 		// ---- C04.2 cascade complete on success
 		c.Clause("R2", "C04.2")
-		var succ []ssa.Instruction
-		for _, r := range eng.SuccessReturns(f, 0) {
-			// only successes after the entry was found: reachable from the entry != nil edge
-			succ = append(succ, r)
-		}
+		succ := eng.SuccessReturns(f, 0)
 		var found []eng.Edge
-		for _, l := range eng.Calls(f, `vault\.\(\*TokenStore\)\.lookupInternal$`) {
-			if eng.Expr(l.Common().Args[2]) == "saltedID" {
-				found = append(found, eng.ValueNilEdges(eng.ResultValue(l, 0), false)...)
-			}
+		for _, l := range entryLk {
+			found = append(found, eng.ValueNilEdges(eng.ResultValue(l.In, 0), false)...)
 		}
 		var succAfter []ssa.Instruction
 		for _, r := range eng.ReturnsFrom(f, found, nil, nil) {
@@ -157,67 +181,95 @@ func runC04(c *eng.Ctx, thorough bool) {
 			}
 		}
 		if c.Floor(f, "nil returns after the entry was found", len(succAfter), 1) {
-			isAfter := eng.IsTarget(succAfter)
-			check := func(desc string, g eng.Guard) {
+			check := func(desc string, g eng.Guard, calls []ssa.Instruction) {
 				site := "after{entry found} success needs " + desc
-				if h := eng.Reach(eng.Query{Fn: f, StartEdges: found, Blocked: g.Edges, Target: isAfter}); h != nil {
+				var rest []ssa.Instruction
+				for _, r := range succAfter {
+					if !nfReturnsErrOf(r, 0, calls) {
+						rest = append(rest, r)
+					}
+				}
+				if h := eng.Reach(eng.Query{Fn: f, StartEdges: found, Blocked: g.Edges, Target: eng.IsTarget(rest)}); h != nil {
 					c.Violation(f, site, h.Instr.Pos(), "revokeInternal can return nil for an existing token without "+desc, h.Witness)
 				} else {
 					c.OK(f, site, succAfter[0].Pos(), "every nil return reachable from the entry-found edge crosses: "+g.Desc)
 				}
 			}
-			check("destroying the cubbyhole", eng.Guard{Desc: "success edge of cubbyholeDestroyer", Edges: okEdgesOf(f, `^dyn:ts\.cubbyholeDestroyer$`)})
-			check("revoking the token's leases", eng.Guard{Desc: "success edge of RevokeByToken", Edges: okEdgesOf(f, `vault\.\(\*ExpirationManager\)\.RevokeByToken$`)})
-			// parent index
-			var pDel, aDel, cDel []eng.Edge
-			for _, d := range eng.Calls(f, `<barrier\.View>\.Delete$`) {
-				recv := eng.Expr(d.Common().Value)
-				a := d.Common().Args
-				key := eng.ExprDeep(a[len(a)-1])
-				switch {
-				case strings.Contains(recv, "accessorView"):
-					aDel = append(aDel, eng.CallOKEdges(d)...)
-				case strings.Contains(recv, "parentView") && strings.Contains(key, "saltedID") && !strings.Contains(key, "SplitIDFromString"):
-					pDel = append(pDel, eng.CallOKEdges(d)...)
-				default:
-					cDel = append(cDel, eng.CallOKEdges(d)...)
-				}
-			}
-			check("deleting its parent-index entry", eng.Or(eng.Guard{Desc: "success edge of parentView.Delete(parent/salted)", Edges: pDel}, eng.G(f, `^`+entry+`\.Parent == ""$`, true)))
-			check("deleting its accessor-index entry", eng.Or(eng.Guard{Desc: "success edge of accessorView.Delete", Edges: aDel}, eng.G(f, `^`+entry+`\.Accessor == ""$`, true)))
-			check("listing its children (unless called from the tree walk)", eng.Or(eng.Guard{Desc: "success edge of parentView.List(saltedID/)", Edges: okEdgesOf(f, `<barrier\.View>\.List$`)}, eng.G(f, `^skipOrphan$`, true)))
-			// every child is orphaned or its dangling index removed: the loop body's failing steps return errors
-			c.Clause("R4", "C04.2")
-			for _, cs := range eng.Calls(f, `vault\.\(\*TokenStore\)\.store$`) {
-				if lk, ok := cs.Common().Args[2].(*ssa.Extract); ok {
-					if lc, ok := lk.Tuple.(*ssa.Call); ok && eng.Expr(lc.Call.Args[2]) != "saltedID" {
-						// child store
-						fe := eng.CallFailEdges(cs)
-						if h := eng.Reach(eng.Query{Fn: f, StartEdges: fe, Target: eng.IsTarget(succAfter)}); h != nil {
-							c.Violation(f, "on{child orphaning failed} no success", h.Instr.Pos(), "revokeInternal can still return nil after failing to orphan a child", h.Witness)
-						} else {
-							c.OK(f, "on{child orphaning failed} no success", cs.Pos(), "a failed child update never leads to a nil return")
+			check("destroying the cubbyhole", eng.Guard{Desc: "success edge of cubbyholeDestroyer", Edges: nfOKEdgesOf(cubbyS)}, cubby)
+			check("revoking the token's leases", eng.Guard{Desc: "success edge of RevokeByToken", Edges: nfOKEdgesOf(rbtS)}, rbt)
+			// parent index / accessor index / dangling child entries, told apart by the view and the key
+			var pDel, aDel []nfSite
+			for _, d := range idxDelS {
+				isA, isP := len(d.Effs) > 0, len(d.Effs) > 0
+				for _, e := range d.Effs {
+					a := e.Call.Args
+					fromView := func(pat string) bool {
+						ok, _ := nfAll(e.Call.Recv, e.Fr, func(o eng.Origin) bool { return o.Kind == "call" && regexp.MustCompile(pat).MatchString(o.Desc) })
+						return ok
+					}
+					if !fromView(`vault\.\(\*TokenStore\)\.accessorView$`) {
+						isA = false
+					}
+					// the token's own parent-index entry: the key ends in the revoked token's salted id
+					ownKey := false
+					for _, o := range nfOrigins(a[len(a)-1], e.Fr) {
+						if p, ok := o.Val.(*ssa.Parameter); ok && p.Parent() == f && saltedIdx >= 0 && f.Params[saltedIdx] == p {
+							ownKey = true
 						}
 					}
+					if !fromView(`vault\.\(\*TokenStore\)\.parentView$`) || !ownKey {
+						isP = false
+					}
+				}
+				if isA {
+					aDel = append(aDel, d)
+				} else if isP {
+					pDel = append(pDel, d)
+				}
+			}
+			entryField := func(name string, want string) eng.Guard {
+				g := eng.Guard{Desc: "[^vault\\.\\(\\*TokenStore\\)\\.lookupInternal\\(\\)#0\\." + name + ` == ""$]=true`}
+				g.Edges = c04FieldCmpEdges(f, c.P.Field("logical.TokenEntry."+name), func(base ssa.Value) bool { return isEntry(base, nil) }, want, true)
+				return g
+			}
+			check("deleting its parent-index entry", eng.Or(eng.Guard{Desc: "success edge of parentView.Delete(parent/salted)", Edges: nfOKEdgesOf(pDel)}, entryField("Parent", `""`)), nfAts(pDel))
+			check("deleting its accessor-index entry", eng.Or(eng.Guard{Desc: "success edge of accessorView.Delete", Edges: nfOKEdgesOf(aDel)}, entryField("Accessor", `""`)), nfAts(aDel))
+			listS := nfPlain(nfMust(f, nil, nfNamed(`^<barrier\.View>\.List$`), 2))
+			check("listing its children (unless called from the tree walk)", eng.Or(eng.Guard{Desc: "success edge of parentView.List(saltedID/)", Edges: nfOKEdgesOf(listS)}, eng.G(f, `^skipOrphan$`, true)), nfAts(listS))
+			// every child is orphaned or its dangling index removed: the loop body's failing steps return errors
+			c.Clause("R4", "C04.2")
+			for _, cs := range nfPlain(nfSites(f, `vault\.\(\*TokenStore\)\.store$`)) {
+				isOwn := false
+				for _, own := range entryStoreS {
+					if own.At == cs.At {
+						isOwn = true
+					}
+				}
+				if isOwn {
+					continue
+				}
+				// child store
+				if h, _ := nfAfterFailure(f, cs, succAfter, 0, nil); h != nil {
+					c.Violation(f, "on{child orphaning failed} no success", h.Instr.Pos(), "revokeInternal can still return nil after failing to orphan a child", h.Witness)
+				} else {
+					c.OK(f, "on{child orphaning failed} no success", cs.At.Pos(), "a failed child update never leads to a nil return")
 				}
 			}
 		}
 		// the token whose leases are revoked / cubbyhole destroyed is the looked-up entry
 		c.Clause("R5", "C04.2")
-		for _, r := range rbtCalls {
-			c.Prov(f, "entry given to RevokeByToken", r.In, r.Args[2], `^call:vault\.\(\*TokenStore\)\.lookupInternal#0$`)
+		for _, e := range nfEffs(rbtS) {
+			nfProv(c, e.Fn, "entry given to RevokeByToken", e.Call.In, e.Call.Args[2], e.Fr, `^call:vault\.\(\*TokenStore\)\.lookupInternal#0$`)
 		}
-		for _, r := range cubby {
-			c.Prov(f, "entry given to cubbyholeDestroyer", r, r.(ssa.CallInstruction).Common().Args[2], `^call:vault\.\(\*TokenStore\)\.lookupInternal#0$`)
+		for _, e := range nfEffs(cubbyS) {
+			nfProv(c, e.Fn, "entry given to cubbyholeDestroyer", e.Call.In, e.Call.Args[2], e.Fr, `^call:vault\.\(\*TokenStore\)\.lookupInternal#0$`)
 		}
-		for _, l := range eng.Calls(f, `vault\.\(\*TokenStore\)\.lookupInternal$`) {
-			a := l.Common().Args
-			if eng.Expr(a[2]) == "saltedID" {
-				if eng.Expr(a[3]) == "true" && eng.Expr(a[4]) == "true" {
-					c.OK(f, "lookup of the revoked token is salted+tainted", l.Pos(), "lookupInternal(saltedID, salted=true, tainted=true): a half-revoked token is found again by a retry")
-				} else {
-					c.Violation(f, "lookup of the revoked token is salted+tainted", l.Pos(), "the revoked token must be looked up with tainted=true, otherwise a token already carrying the marker is not found and a retry reports success without finishing", nil)
-				}
+		for _, l := range entryLk {
+			a := l.Args
+			if nfIsConst(a[3], nil, "true") && nfIsConst(a[4], nil, "true") {
+				c.OK(f, "lookup of the revoked token is salted+tainted", l.In.Pos(), "lookupInternal(saltedID, salted=true, tainted=true): a half-revoked token is found again by a retry")
+			} else {
+				c.Violation(f, "lookup of the revoked token is salted+tainted", l.In.Pos(), "the revoked token must be looked up with tainted=true, otherwise a token already carrying the marker is not found and a retry reports success without finishing", nil)
 			}
 		}
 
@@ -229,7 +281,6 @@ func runC04(c *eng.Ctx, thorough bool) {
 		if pendF == nil {
 			c.Unresolved("vault.TokenStore.tokensPendingDeletion")
 		}
-		saltedIdx := nfParamIndex(f, "saltedID")
 		pendingOp := func(ops string) func(nfCall, *nfFrame) bool {
 			re := regexp.MustCompile(`^sync\.\(\*Map\)\.(` + ops + `)$`)
 			return func(nc nfCall, fr *nfFrame) bool {
@@ -317,52 +368,53 @@ func runC04(c *eng.Ctx, thorough bool) {
 		c.Clause("R2", "C04.2")
 		succ := eng.SuccessReturns(f, 0)
 		c.Floor(f, "nil-capable returns", len(succ), 1)
-		c.Cut(f, "nil return", succ, eng.GCallOK(f, `vault\.\(\*ExpirationManager\)\.lookupLeasesByToken$`), nil)
+		nfCutOK(c, f, "nil return", succ, 0, nfGCallOK(f, `vault\.\(\*ExpirationManager\)\.lookupLeasesByToken$`))
 		// the loop over the leases: leaving it needs the loop-done edge; a failing lazyRevokeInternal returns its error
-		for _, lz := range eng.Calls(f, `vault\.\(\*ExpirationManager\)\.lazyRevokeInternal$`) {
+		lzS := nfPlain(nfSites(f, `vault\.\(\*ExpirationManager\)\.lazyRevokeInternal$`))
+		for _, lz := range lzS {
 			c.Clause("R4", "C04.2")
 			// RevokeByToken defers, so its results are spilled to a local: the
 			// nil-capable returns are those of SuccessReturns (which resolves
 			// the spill through the reaching stores), not the returns whose
 			// operand is the literal nil.
-			fe := eng.CallFailEdges(lz)
 			site := "on{lazyRevokeInternal failed} no nil return"
-			switch {
-			case len(fe) == 0:
-				c.Violation(f, site, lz.Pos(), "the error of lazyRevokeInternal is never tested: a failed lease revocation cannot stop RevokeByToken from reporting success", nil)
-			case len(succ) == 0:
-				c.Undecided(f, site, lz.Pos(), "no nil-capable return found: the rule cannot be evaluated")
-			default:
-				if h := eng.Reach(eng.Query{Fn: f, StartEdges: fe, Target: eng.IsTarget(succ)}); h != nil {
+			if len(succ) == 0 {
+				c.Undecided(f, site, lz.At.Pos(), "no nil-capable return found: the rule cannot be evaluated")
+			} else if h, tested := nfAfterFailure(f, lz, succ, 0, nil); h != nil {
+				if tested {
 					c.Violation(f, site, h.Instr.Pos(), "a nil-capable return is reachable from the failure edge of lazyRevokeInternal: a failed lease revocation can be swallowed", h.Witness)
 				} else {
-					c.OK(f, site, lz.Pos(), fmt.Sprintf("none of the %d nil-capable return(s) is reachable from the %d failure edge(s): failure of a lease revocation is returned", len(succ), len(fe)))
+					c.Violation(f, site, lz.At.Pos(), "the error of lazyRevokeInternal is never tested: a failed lease revocation cannot stop RevokeByToken from reporting success", h.Witness)
 				}
+			} else {
+				c.OK(f, site, lz.At.Pos(), fmt.Sprintf("none of the %d nil-capable return(s) is reachable once lazyRevokeInternal failed: failure of a lease revocation is returned", len(succ)))
 			}
-			c.Clause("R5", "C04.2")
-			c.Prov(f, "lease revoked", lz, lz.Common().Args[2], `lookupLeasesByToken`)
 		}
-		c.Floor(f, "lazyRevokeInternal call", len(eng.Calls(f, `vault\.\(\*ExpirationManager\)\.lazyRevokeInternal$`)), 1)
+		c.Clause("R5", "C04.2")
+		for _, e := range nfEffs(lzS) {
+			nfProv(c, e.Fn, "lease revoked", e.Call.In, e.Call.Args[2], e.Fr, `lookupLeasesByToken`)
+		}
+		c.Floor(f, "lazyRevokeInternal call", len(lzS), 1)
 		c.Clause("R2", "C04.2")
 		loopDone := eng.CondEdges(f, `rangeindex.*len\(vault\.\(\*ExpirationManager\)\.lookupLeasesByToken\(\)#0\)$`, false)
 		c.Cut(f, "nil return", succ, eng.Guard{Desc: "exit edge of the loop over the token's leases", Edges: loopDone}, nil)
 		// the token's own lease is cleaned up without calling back into the token store
 		c.Clause("R12", "C04.2")
-		for _, rc := range eng.Calls(f, `vault\.\(\*ExpirationManager\)\.revokeCommon$`) {
-			a := rc.Common().Args
-			if eng.Expr(a[3]) == "false" && eng.Expr(a[4]) == "true" {
-				c.OK(f, "const{revokeCommon(tokenLease, force=false, skipToken=true)}", rc.Pos(), "own lease removed without re-entering token revocation")
+		for _, rc := range nfCalls(f, `vault\.\(\*ExpirationManager\)\.revokeCommon$`) {
+			a := rc.Args
+			if nfIsConst(a[3], nil, "false") && nfIsConst(a[4], nil, "true") {
+				c.OK(f, "const{revokeCommon(tokenLease, force=false, skipToken=true)}", rc.In.Pos(), "own lease removed without re-entering token revocation")
 			} else {
-				c.Violation(f, "const{revokeCommon(tokenLease, force=false, skipToken=true)}", rc.Pos(), "unexpected flags force="+eng.Expr(a[3])+" skipToken="+eng.Expr(a[4]), nil)
+				c.Violation(f, "const{revokeCommon(tokenLease, force=false, skipToken=true)}", rc.In.Pos(), "unexpected flags force="+eng.Expr(a[3])+" skipToken="+eng.Expr(a[4]), nil)
 			}
 		}
 	}
 	if f := c.Fn("vault.(*ExpirationManager).lazyRevokeInternal"); f != nil {
 		c.Clause("R3", "C04.2")
-		pe := instrsOf(eng.Calls(f, `vault\.\(\*ExpirationManager\)\.persistEntry$`))
-		up := instrsOf(eng.Calls(f, `vault\.\(\*ExpirationManager\)\.updatePending$`))
+		pe := nfAts(nfPlain(nfSites(f, `vault\.\(\*ExpirationManager\)\.persistEntry$`)))
+		up := nfAts(nfPlain(nfSites(f, `vault\.\(\*ExpirationManager\)\.updatePending$`)))
 		if c.Floor(f, "persistEntry", len(pe), 1) && c.Floor(f, "updatePending", len(up), 1) {
-			c.Cut(f, "updatePending (queue for immediate revocation)", up, eng.GCallOK(f, `vault\.\(\*ExpirationManager\)\.persistEntry$`), nil)
+			c.Cut(f, "updatePending (queue for immediate revocation)", up, nfGCallOK(f, `vault\.\(\*ExpirationManager\)\.persistEntry$`), nil)
 			succ := eng.SuccessReturns(f, 0)
 			// success with an existing lease passes updatePending
 			leFound := eng.CondEdges(f, `loadEntry.*#0 == nil$`, false)
@@ -375,58 +427,66 @@ func runC04(c *eng.Ctx, thorough bool) {
 			}
 		}
 		c.Clause("R5", "C04.2")
-		for _, st := range eng.Stores(f, `\.ExpireTime$`) {
-			c.Prov(f, "expiry set by lazy revocation", st, st.Val, `^call:time\.Now$`)
+		for _, st := range nfFieldStores(f, c.P.Field("vault.leaseEntry.ExpireTime")) {
+			if st.Fn == f || st.Fn.Parent() != nil {
+				nfProv(c, st.Fn, "expiry set by lazy revocation", st.St, st.St.Val, st.Fr, `^call:time\.Now$`)
+			}
 		}
 	}
 
 	// ---- C04.4 storeCommon
 	if f := c.Fn("vault.(*TokenStore).storeCommon"); f != nil {
 		c.Clause("R3", "C04.4")
-		var pPut, idPut []ssa.Instruction
-		for _, p := range eng.Calls(f, `<barrier\.View>\.Put$`) {
-			recv := eng.Expr(p.Common().Value)
-			if strings.Contains(recv, "parentView") {
-				pPut = append(pPut, p)
-			} else if strings.Contains(recv, "idView") {
-				idPut = append(idPut, p)
-			}
-		}
+		// the two writes, told apart by the constructor of the view they go to (followed through view
+		// aliases and through a closure / helper that performs the Put)
+		pPutS := nfViewOps(f, nil, "Put", `vault\.\(\*TokenStore\)\.parentView$`)
+		idPutS := nfViewOps(f, nil, "Put", `vault\.\(\*TokenStore\)\.idView$`)
+		pPut, idPut := nfAts(pPutS), nfAts(idPutS)
 		if c.Floor(f, "parentView.Put", len(pPut), 1) && c.Floor(f, "idView.Put", len(idPut), 1) {
 			c.Clause("R2", "C04.4")
-			pOK := eng.Guard{Desc: "success edge of parentView.Put"}
-			for _, p := range pPut {
-				pOK.Edges = append(pOK.Edges, eng.CallOKEdges(p.(ssa.CallInstruction))...)
+			pOK := eng.Guard{Desc: "success edge of parentView.Put", Edges: nfOKEdgesOf(pPutS)}
+			entryIdx := nfParamIndex(f, "entry")
+			noParent := eng.Guard{Desc: `[^entry\.Parent == ""$]=true`, Edges: c04FieldCmpEdges(f, c.P.Field("logical.TokenEntry.Parent"), func(base ssa.Value) bool {
+				ok, _ := nfIsParamOf(base, nil, f, entryIdx)
+				return ok
+			}, `""`, true)}
+			c.Cut(f, "idView.Put (primary entry)", idPut, eng.Or(pOK, eng.G(f, `^writeSecondary$`, false), noParent), nil)
+			lkS := nfPlain(nfSites(f, `vault\.\(\*TokenStore\)\.Lookup$`))
+			found := eng.Guard{Desc: `[^vault\.\(\*TokenStore\)\.Lookup\(\)#0 == nil$]=false`}
+			for _, l := range lkS {
+				if l.Fwd {
+					found.Edges = append(found.Edges, eng.ValueNilEdges(eng.ResultValue(l.At.(ssa.CallInstruction), 0), false)...)
+				}
 			}
-			c.Cut(f, "idView.Put (primary entry)", idPut, eng.Or(pOK, eng.G(f, `^writeSecondary$`, false), eng.G(f, `^entry\.Parent == ""$`, true)), nil)
-			c.Cut(f, "parentView.Put (parent index)", pPut, eng.G(f, `^vault\.\(\*TokenStore\)\.Lookup\(\)#0 == nil$`, false), nil)
-			c.Cut(f, "parentView.Put (parent index)", pPut, eng.GCallOK(f, `vault\.\(\*TokenStore\)\.Lookup$`), nil)
+			c.Cut(f, "parentView.Put (parent index)", pPut, found, nil)
+			c.Cut(f, "parentView.Put (parent index)", pPut, nfOKOf(`success edge of vault\.\(\*TokenStore\)\.Lookup$`, lkS), nil)
 			c.Clause("R5", "C04.4")
-			for _, l := range eng.Calls(f, `vault\.\(\*TokenStore\)\.Lookup$`) {
-				c.Prov(f, "parent looked up", l, l.Common().Args[2], `^field:entry\.Parent$`)
+			for _, e := range nfEffs(lkS) {
+				nfProv(c, e.Fn, "parent looked up", e.Call.In, e.Call.Args[2], e.Fr, `^field:entry\.Parent$`)
 			}
 		}
 		// ---- C04.8 check-then-act atomicity (R14)
 		c.Clause("R14", "C04.8")
 		mech := ""
-		for _, lk := range eng.Calls(f, `locksutil\.LockForKey`) {
-			if strings.Contains(eng.ExprDeep(lk.Common().Args[1]), "entry.Parent") {
-				mech = "lock keyed by the parent"
+		for _, lk := range nfCalls(f, `locksutil\.LockForKey`) {
+			for _, o := range nfOrigins(lk.Args[1], nil) {
+				if _, is := nfFieldOf(o, c.P.Field("logical.TokenEntry.Parent")); is {
+					mech = "lock keyed by the parent"
+				}
 			}
 		}
-		if len(eng.Calls(f, `BeginTx$`)) > 0 {
+		if len(nfCalls(f, `BeginTx$`)) > 0 {
 			mech = "storage transaction"
 		}
 		// re-validation: a parent lookup after the primary put
 		for _, ip := range idPut {
-			if h := eng.Reach(eng.Query{Fn: f, StartAfter: ip, Target: eng.IsTarget(instrsOf(eng.Calls(f, `vault\.\(\*TokenStore\)\.(Lookup|lookupInternal)$`)))}); h != nil {
+			if h := eng.Reach(eng.Query{Fn: f, StartAfter: ip, Target: eng.IsTarget(nfIns(nfCalls(f, `vault\.\(\*TokenStore\)\.(Lookup|lookupInternal)$`)))}); h != nil {
 				mech = "re-validation of the parent after the child's writes"
 			}
 		}
 		if g := c.Fn("vault.(*TokenStore).revokeTreeInternal"); g != nil && mech == "" {
 			// the revoker side: does it take a parent-keyed lock or re-list after the marker?
-			for _, lk := range eng.Calls(g, `locksutil\.LockForKey`) {
-				_ = lk
+			if len(nfCalls(g, `locksutil\.LockForKey`)) > 0 {
 				mech = "lock in the tree walk"
 			}
 		}
@@ -445,15 +505,12 @@ func runC04(c *eng.Ctx, thorough bool) {
 		c.Clause("R5", "C04.7")
 		type nsSite struct {
 			fn *ssa.Function
-			cl ssa.CallInstruction
+			cl nfCall
 			fr *nfFrame
 		}
 		var sites []nsSite
 		nsOps := func(g *ssa.Function, fr *nfFrame) {
-			for _, cl := range eng.Calls(g, `vault\.\(\*TokenStore\)\.revokeInternal$`) {
-				sites = append(sites, nsSite{g, cl, fr})
-			}
-			for _, cl := range eng.Calls(g, `^<barrier\.View>\.(List|Delete)$`) {
+			for _, cl := range nfCalls(g, `vault\.\(\*TokenStore\)\.revokeInternal$|^<barrier\.View>\.(List|Delete)$`) {
 				sites = append(sites, nsSite{g, cl, fr})
 			}
 		}
@@ -479,11 +536,11 @@ func runC04(c *eng.Ctx, thorough bool) {
 		}
 		n := 0
 		for _, s := range sites {
-			cl := s.cl
+			cl := s.cl.In
 			cc := cl.Common()
-			ctxArg := cc.Args[0]
-			if !cc.IsInvoke() {
-				ctxArg = cc.Args[1]
+			ctxArg := s.cl.Args[0]
+			if s.cl.Recv == nil {
+				ctxArg = s.cl.Args[1]
 			}
 			n++
 			adjusted, other := false, ""
@@ -510,13 +567,20 @@ func runC04(c *eng.Ctx, thorough bool) {
 			}
 		}
 		c.Floor(f, "namespace-sensitive operations of the tree walk", n, 3)
-		for _, nb := range eng.Calls(f, `vault\.\(\*Core\)\.NamespaceByID$`) {
-			a := nb.Common().Args
+		nsIDF := c.P.Field("logical.TokenEntry.NamespaceID")
+		for _, nb := range nfCalls(f, `vault\.\(\*Core\)\.NamespaceByID$`) {
+			a := nb.Args
 			s := eng.Expr(a[len(a)-1])
-			if strings.HasSuffix(s, "SplitIDFromString()#1") || strings.HasSuffix(s, ".NamespaceID") {
-				c.OK(f, "namespace looked up for a node", nb.Pos(), s)
+			ok, _ := nfAll(a[len(a)-1], nil, func(o eng.Origin) bool {
+				if _, is := nfFieldOf(o, nsIDF); is {
+					return true
+				}
+				return o.Kind == "call" && strings.HasSuffix(o.Desc, "namespace.SplitIDFromString#1")
+			})
+			if ok {
+				c.OK(f, "namespace looked up for a node", nb.In.Pos(), s)
 			} else {
-				c.Violation(f, "namespace looked up for a node", nb.Pos(), "NamespaceByID("+s+") is not the namespace part of the node id", nil)
+				c.Violation(f, "namespace looked up for a node", nb.In.Pos(), "NamespaceByID("+s+") is not the namespace part of the node id", nil)
 			}
 		}
 	}
@@ -524,10 +588,11 @@ func runC04(c *eng.Ctx, thorough bool) {
 	// ---- C04.7 tree walk
 	if f := c.Fn("vault.(*TokenStore).revokeTreeInternal"); f != nil {
 		c.Clause("R3", "C04.7")
-		list := instrsOf(eng.Calls(f, `<barrier\.View>\.List$`))
-		rev := instrsOf(eng.Calls(f, `vault\.\(\*TokenStore\)\.revokeInternal$`))
+		list := nfAts(nfPlain(nfSites(f, `<barrier\.View>\.List$`)))
+		revC := nfCalls(f, `vault\.\(\*TokenStore\)\.revokeInternal$`)
+		rev := nfIns(revC)
 		if c.Floor(f, "parentView.List", len(list), 1) && c.Floor(f, "revokeInternal", len(rev), 1) {
-			c.Cut(f, "revokeInternal(node)", rev, eng.GCallOK(f, `<barrier\.View>\.List$`), nil)
+			c.Cut(f, "revokeInternal(node)", rev, nfGCallOK(f, `<barrier\.View>\.List$`), nil)
 			// leaves only: the emptiness test is selected by what it tests — the slice that is pushed
 			// onto the stack the node was read from — not by the name or shape of that slice
 			if lg, why := c04LeafGuard(f, rev); why != "" {
@@ -536,26 +601,24 @@ func runC04(c *eng.Ctx, thorough bool) {
 				c.Cut(f, "revokeInternal(node)", rev, lg, nil)
 			}
 			c.Clause("R12", "C04.7")
-			for _, r := range rev {
-				a := r.(ssa.CallInstruction).Common().Args
-				if eng.Expr(a[3]) == "true" {
-					c.OK(f, "const{revokeInternal(..., skipOrphan=true)}", r.Pos(), "leaf revocation inside the tree walk skips orphaning")
+			for _, r := range revC {
+				a := r.Args
+				if nfIsConst(a[3], nil, "true") {
+					c.OK(f, "const{revokeInternal(..., skipOrphan=true)}", r.In.Pos(), "leaf revocation inside the tree walk skips orphaning")
 				} else {
-					c.Violation(f, "const{revokeInternal(..., skipOrphan=true)}", r.Pos(), "skipOrphan="+eng.Expr(a[3]), nil)
+					c.Violation(f, "const{revokeInternal(..., skipOrphan=true)}", r.In.Pos(), "skipOrphan="+eng.Expr(a[3]), nil)
 				}
 			}
 			// failure of a leaf revocation aborts the walk with an error
 			c.Clause("R4", "C04.7")
-			for _, r := range rev {
-				fe := eng.CallFailEdges(r.(ssa.CallInstruction))
-				var nilRets []ssa.Instruction
-				for _, s := range eng.SuccessReturns(f, 0) {
-					nilRets = append(nilRets, s)
+			for _, r := range revC {
+				if _, plain := r.In.(*ssa.Call); !plain {
+					continue
 				}
-				if h := eng.Reach(eng.Query{Fn: f, StartEdges: fe, Target: eng.IsTarget(nilRets)}); h != nil {
+				if h, _ := nfAfterFailure(f, nfSite{At: r.In, Fwd: true}, eng.SuccessReturns(f, 0), 0, nil); h != nil {
 					c.Violation(f, "on{leaf revocation failed} no success", h.Instr.Pos(), "the tree walk can report success after a leaf revocation failed", h.Witness)
 				} else {
-					c.OK(f, "on{leaf revocation failed} no success", r.Pos(), "a failed leaf revocation never leads to a nil return")
+					c.OK(f, "on{leaf revocation failed} no success", r.In.Pos(), "a failed leaf revocation never leads to a nil return")
 				}
 			}
 		}
@@ -579,12 +642,23 @@ func runC04(c *eng.Ctx, thorough bool) {
 	if f := c.Fn("vault.(*ExpirationManager).revokeEntry"); f != nil {
 		c.Clause("R2", "C04.6")
 		succ := eng.SuccessReturns(f, 0)
-		authArm := eng.CondEdges(f, `^le\.Auth == nil$`, false)
+		leIdx := nfParamIndex(f, "le")
+		authArm := c04FieldCmpEdges(f, c.P.Field("vault.leaseEntry.Auth"), func(base ssa.Value) bool {
+			ok, _ := nfIsParamOf(base, nil, f, leIdx)
+			return ok
+		}, "nil", false)
 		if len(authArm) == 0 {
 			c.Violation(f, "auth lease arm", f.Pos(), "revokeEntry no longer distinguishes auth leases", nil)
 		} else {
-			rt := eng.Guard{Desc: "success edge of tokenStore.revokeTree", Edges: okEdgesOf(f, `vault\.\(\*TokenStore\)\.revokeTree$`)}
-			if h := eng.Reach(eng.Query{Fn: f, StartEdges: authArm, Blocked: rt.Edges, Target: eng.IsTarget(succ)}); h != nil {
+			rtS := nfPlain(nfSites(f, `vault\.\(\*TokenStore\)\.revokeTree$`))
+			rt := eng.Guard{Desc: "success edge of tokenStore.revokeTree", Edges: nfOKEdgesOf(rtS)}
+			var rest []ssa.Instruction
+			for _, r := range succ {
+				if !nfReturnsErrOf(r, 0, nfAts(rtS)) {
+					rest = append(rest, r)
+				}
+			}
+			if h := eng.Reach(eng.Query{Fn: f, StartEdges: authArm, Blocked: rt.Edges, Target: eng.IsTarget(rest)}); h != nil {
 				c.Violation(f, "on{auth lease} success needs revokeTree", h.Instr.Pos(), "revocation of a token's lease can succeed without revoking the token tree", h.Witness)
 			} else {
 				c.OK(f, "on{auth lease} success needs revokeTree", authArm[0].From.Instrs[len(authArm[0].From.Instrs)-1].Pos(), "an auth lease is revoked only through tokenStore.revokeTree")
@@ -613,7 +687,12 @@ func runC04(c *eng.Ctx, thorough bool) {
 			}
 			succ = append(succ, r)
 		}
-		tokFound := eng.CondEdges(f, `^vault\.\(\*TokenStore\)\.Lookup\(\)#0 == nil$`, false)
+		var tokFound []eng.Edge
+		for _, l := range nfPlain(nfSites(f, `vault\.\(\*TokenStore\)\.Lookup$`)) {
+			if l.Fwd {
+				tokFound = append(tokFound, eng.ValueNilEdges(eng.ResultValue(l.At.(ssa.CallInstruction), 0), false)...)
+			}
+		}
 		var after []ssa.Instruction
 		for _, r := range eng.ReturnsFrom(f, tokFound, nil, nil) {
 			for _, s2 := range succ {
@@ -626,12 +705,12 @@ func runC04(c *eng.Ctx, thorough bool) {
 		if !c.Floor(f, "success returns after the token was found", len(succ), 1) {
 			continue
 		}
-		c.Cut(f, h.what+" success", succ, eng.GCallOK(f, `vault\.\(\*ExpirationManager\)\.CreateOrFetchRevocationLeaseByToken$`), nil)
-		c.Cut(f, h.what+" success", succ, eng.GCallOK(f, `vault\.\(\*ExpirationManager\)\.Revoke$`), nil)
+		nfCutOK(c, f, h.what+" success", succ, idx, nfGCallOK(f, `vault\.\(\*ExpirationManager\)\.CreateOrFetchRevocationLeaseByToken$`))
+		nfCutOK(c, f, h.what+" success", succ, idx, nfGCallOK(f, `vault\.\(\*ExpirationManager\)\.Revoke$`))
 	}
 	if f := c.Fn("vault.(*TokenStore).handleRevokeOrphan"); f != nil {
 		c.Clause("R2", "C04.6")
-		ro := instrsOf(eng.Calls(f, `vault\.\(\*TokenStore\)\.revokeOrphan$`))
+		ro := nfAts(nfSites(f, `vault\.\(\*TokenStore\)\.revokeOrphan$`))
 		if c.Floor(f, "revokeOrphan call", len(ro), 1) {
 			c.Cut(f, "revokeOrphan (children keep living)", ro, eng.G(f, `SudoPrivilege\(\)$`, true), nil)
 		}
@@ -664,7 +743,7 @@ func c04LeafGuard(f *ssa.Function, rev []ssa.Instruction) (eng.Guard, string) {
 	// the stack: what the node id is indexed out of
 	var stacks []ssa.Value
 	for _, r := range rev {
-		a := r.(ssa.CallInstruction).Common().Args
+		a := nfCallOf(r.(ssa.CallInstruction)).Args
 		if len(a) < 3 {
 			continue
 		}
